@@ -11,8 +11,11 @@ DECIDES = ('history independence of linalg/_linalg: no function mutates a parame
            'the matrix with the same index pairs over full rows inside the same guard (PV1); every consumer of a pivoted matrix '
            'also consumes its permutation or sign (PV2) and lu_factor applies P - not its transpose - to the right-hand side (PV3); single-expression identities in polynomial normal form: cross product, '
            'binomial coefficient, is_left, element-wise vector maps, dot product as accumulated product (AL*); the LU factorisation, pivoting and triangular solves compare no matrix entry with a non-zero literal: they are scale-free (SC1); the degenerate-interval test of linspace compares the absolute difference of its ends with its threshold, so decreasing sequences are generated like increasing ones (TOL1).')
-NOT_DECIDED = ('A x = b, A A^-1 = I, Leibniz determinant for arbitrary matrices, solvability for diagonally dominant / collocation '
-               'matrices, floating-point accuracy (e.g. factorial quotients), loop-based helpers other than the accumulator idiom.')
+NOT_DECIDED = ('matrices larger than 3 x 3 (the exact rules enumerate 3 x 3 systems), the choice of the pivot row itself (comparisons of magnitudes), '
+               'solvability for diagonally dominant / collocation matrices, floating-point accuracy (e.g. factorial quotients).')
+DECIDES += (' [ABSTRACT INTERPRETATION, exact] LA3: on symbolic 3 x 3 matrices (rational-function arithmetic) doolittle gives L unit lower, U upper, L U = A for the '
+            'dense matrix and all 42 patterns of up to three structural zeros; forward / backward substitution solve their triangular systems; lu_solve, lu_factor (every '
+            'pivot permutation), matrix_inverse and matrix_determinant satisfy A x = b, A A^-1 = I and the Leibniz formula; FD2: the binomial is not truncated from a float quotient.')
 
 MODS = ('linalg', '_linalg')
 
